@@ -131,7 +131,7 @@ fn main() {
     let range: Vec<u64> = match args.only { Some(i) => vec![i], None => (0..args.n).collect() };
     for i in range {
         let mut rng = case_rng(args.seed, i);
-        let mut g = Gen { rng: &mut rng, now: 0, deadlines: vec![], lens: vec![], hot: true };
+        let mut g = Gen { rng: &mut rng, now: 0, deadlines: vec![], lens: vec![], hot: true, state: vec![], pending: vec![] };
         let pre = setup(&mut g);
         // ------------------------------------------------ part A: model commands, for Coq too
         let mut im = Impl::new();
@@ -165,6 +165,7 @@ fn main() {
                 trace.push(json!({"command": c.to_coq(), "reply": format!("{:?}", r)}));
                 last = after.snap;
                 g.deadlines = last.iter().filter(|e| e.2 >= 0).map(|e| g.now + e.2 as u64).collect();
+                g.state = last.clone();
                 g.lens = last.iter().filter_map(|e| match &e.1 { Dump::L(v) => Some(v.len() as i64), Dump::S(v) => Some(v.len() as i64), Dump::Z(v) => Some(v.len() as i64), _ => None }).collect();
             }
             step += 1;
@@ -173,7 +174,7 @@ fn main() {
         // ------------------------------------------------ part B: the full command set, implementation only
         let mut imb = Impl::new();
         let mut traceb: Vec<serde_json::Value> = Vec::new();
-        g.now = 0;
+        g.now = 0; g.pending.clear(); g.state = vec![];
         for c in &pre { let _ = imb.exec(&c.to_rust()); traceb.push(json!({"setup": c.to_coq()})); }
         let nb = g.rng.gen_range(25..=40);
         for _ in 0..nb {
@@ -190,6 +191,7 @@ fn main() {
             out.count(&format!("B:cmd:{}", name));
             traceb.push(json!({"command": text, "reply": format!("{:?}", r)}));
             let snap = &after.snap;
+            g.state = snap.clone();
             g.deadlines = snap.iter().filter(|e| e.2 >= 0).map(|e| g.now + e.2 as u64).collect();
         }
         out.case(i, term.clone(), nerr >= 3 && kinds.len() >= 2 && nro >= 3, &format!("{}|{:?}", term, traceb));
